@@ -98,8 +98,11 @@ func roundtrip(env *hx.Env, ctx sdk.Context, rn hx.Runner, mod string, doPrep bo
 			validate = "panic:" + strings.ReplaceAll(info, " ", "_")
 		}
 	}
-	// import into an emptied module store on a nested cache (a failed import changes nothing)
-	cctx, write := ctx.CacheContext()
+	// two sibling branches of ctx: the original state (octx) and the one the export is imported
+	// into (cctx). A cache context reads through to its parent, so ctx itself is never written
+	// from here on.
+	octx, _ := ctx.CacheContext()
+	cctx, _ := ctx.CacheContext()
 	wipe(env, cctx, mod)
 	imp := "ok"
 	p, info := hx.NoPanic(func() {
@@ -118,7 +121,7 @@ func roundtrip(env *hx.Env, ctx sdk.Context, rn hx.Runner, mod string, doPrep bo
 		}
 		return fmt.Sprintf("ok export=ok validate=%s import=%s", trunc(validate), imp)
 	}
-	write()
+	ctx = cctx // from here on: the re-imported branch
 	g2, s2 := export(env, ctx, mod)
 	after := ""
 	if st != nil {
@@ -128,6 +131,21 @@ func roundtrip(env *hx.Env, ctx sdk.Context, rn hx.Runner, mod string, doPrep bo
 	if before != after {
 		res += " qdiff=" + firstDiff(before, after)
 	}
+	// continuation: an as-is export continues at the same heights, so the original and the
+	// re-imported state must stay equal (durable projection) while both run the blocks in which
+	// their pending items fall due. (A zero-height export rebases heights: not comparable.)
+	cont := "true"
+	if cn, ok := rn.(hx.Continuer); ok && !doPrep && st != nil && before == after && s2 == "ok" && g1 == g2 {
+		for i, l := range cn.Continuation(octx) {
+			octx, _ = rn.Exec(octx, l)
+			ctx, _ = rn.Exec(ctx, l)
+			if a, b := st.State(octx), st.State(ctx); a != b {
+				cont = fmt.Sprintf("false cstep=%d cop=%s cdiff=%s", i, strings.ReplaceAll(l, " ", "_"), firstDiff(a, b))
+				break
+			}
+		}
+	}
+	res += " continuation=" + cont
 	return res
 }
 
@@ -191,6 +209,9 @@ func main() {
 					fmt.Fprintf(os.Stderr, "%s\n   -> %.300s\n", l, obs)
 				}
 			}
+		}
+		if bc, ok := rn.(hx.BlockCloser); ok {
+			ctx = bc.CloseBlock(ctx) // export at a block boundary, as a chain does
 		}
 		return roundtrip(env, ctx, rn, a["module"], a["prep"] == "1")
 	}
